@@ -3,6 +3,7 @@ import json
 
 import vlib
 from areas import vec
+from areas import vec_tie
 
 PROP = "C10"
 
@@ -18,6 +19,7 @@ def neighbourhood(script):
 
 def run(chk):
     c_exe, m_exe = vlib.prepare_area(chk, vec, leanchecker=True)
+    vec_tie.tie_run(chk, vec_tie.TIE_BY_PROP["C10"])
     if c_exe:
         quick = chk.tier == "quick"
         vlib.run_scripts(chk, vec, c_exe, m_exe, vec.corpus(PROP), vec.oracle)
